@@ -312,9 +312,12 @@ func mutate(root *node, p path, op string, level int) []variant {
 			if cur.kind == 'n' {
 				repl("numstr", str(cur.str))
 			}
-		} else if level > 0 {
+		} else {
+			// already a string: strings a decoder may choke on
 			repl("nul-char", str("a\u0000b"))
-			repl("non-utf8-escape", raw(`"\ud800"`))
+			if level > 0 {
+				repl("non-utf8-escape", raw(`"\ud800"`))
+			}
 		}
 	case "type-number":
 		if cur.kind != 'n' {
@@ -375,7 +378,7 @@ func mutate(root *node, p path, op string, level int) []variant {
 					repl(x, num(x))
 				}
 			}
-		} else if level > 0 {
+		} else if cur.kind == 's' || cur.kind == 'b' || level > 0 {
 			repl("2^63", num("9223372036854775808"))
 			repl("1e999", num("1e999"))
 		}
